@@ -316,7 +316,7 @@ func main() {
 		}
 	}
 	// A4: every [flags] expression of up to 4 tokens over a small token alphabet, for every base type
-	exprTokens := []string{"1", "-1", "64", "0x7fffffffffffffff", "A", "<<", ">>", "|", "&", "(", ")"}
+	exprTokens := []string{"1", "-1", "64", "0x7fffffffffffffff", "A", "N", "<<", ">>", "|", "&", "(", ")"}
 	maxExpr := 4
 	if run.Thorough() {
 		maxExpr = 5
@@ -344,10 +344,86 @@ func main() {
 			if base != "" && base != "int32" && !run.Thorough() && len(strings.Fields(e)) > 3 {
 				continue
 			}
-			jobs = append(jobs, job{hdr + "A = 1;\nB = " + e + ";\n}\n", "flags-expr", "base=" + base, strings.Fields(e)[0]})
+			neg := "N = -1;\n"
+			if base == "" || base == "byte" || strings.HasPrefix(base, "uint") {
+				neg = "N = 7;\n"
+			}
+			jobs = append(jobs, job{hdr + "A = 1;\n" + neg + "B = " + e + ";\n}\n", "flags-expr", "base=" + base, strings.Fields(e)[0]})
+		}
+	}
+	for _, base := range []string{"int16", "int32", "int64"} {
+		for _, e := range []string{"1 << ( -1 )", "1 >> ( -1 )", "1 << ( N )", "1 << ( N | N )", "8 >> -1 | 0", "( 1 << N ) | 1", "1 << ( 0 | -1 )", "A << ( N & -1 )"} {
+			jobs = append(jobs, job{"[flags]\nenum F : " + base + " {\nA = 1;\nN = -1;\nB = " + e + ";\n}\n", "flags-expr", "base=" + base, "negative-count"})
 		}
 	}
 	vlib.ParallelFor(len(jobs), func(i int) { judge(jobs[i].text, jobs[i].origin, jobs[i].ctx, jobs[i].tail) })
+
+	// A5: the result must not depend on how the reader chunks its data (differential against one full read): every
+	// alphabet text and pair under 1-, 2-, 3-, 5- and 7-byte reads; and a text longer than the tokenizer's 4096-byte
+	// buffer, shifted byte by byte so that every token straddles a refill boundary once.
+	{
+		var texts []string
+		b0, b1 := textgen.Alphabet(0), textgen.Alphabet(1)
+		for i, d := range b0 {
+			texts = append(texts, textgen.Render([]*textgen.Def{d}, textgen.Layouts[0]))
+			texts = append(texts, textgen.Render([]*textgen.Def{d, b1[(i*5+1)%len(b1)]}, textgen.Layouts[4]))
+		}
+		var long strings.Builder
+		for p := 0; long.Len() < 9000; p++ {
+			long.WriteString(textgen.Render(textgen.Alphabet(p + 10), textgen.Layouts[0]))
+		}
+		longText := long.String()
+		type cjob struct {
+			text  string
+			chunk int
+			pad   int
+		}
+		var cjobs []cjob
+		for _, t := range texts {
+			for _, c := range []int{1, 2, 3, 5, 7} {
+				cjobs = append(cjobs, cjob{t, c, 0})
+			}
+		}
+		shifts := 96
+		if run.Thorough() {
+			shifts = 512
+		}
+		for pad := 0; pad < shifts; pad++ {
+			cjobs = append(cjobs, cjob{longText, 0, pad}) // ordinary reader, shifted
+		}
+		for _, c := range []int{1, 3, 4096, 4097} {
+			cjobs = append(cjobs, cjob{longText, c, 0})
+		}
+		vlib.ParallelFor(len(cjobs), func(i int) {
+			j := cjobs[i]
+			text := strings.Repeat("\n", j.pad) + j.text
+			full := readFile(strings.NewReader(text))
+			var r io.Reader = strings.NewReader(text)
+			if j.chunk > 0 {
+				r = &chunkReader{data: []byte(text), chunk: j.chunk}
+			} else {
+				r = bufioSized(text)
+			}
+			got := guarded(text, func() result { return readFile(r) })
+			atomic.AddInt64(&states, 1)
+			atomic.AddInt64(&trans, 2)
+			c := map[string]any{"input": vlib.Short(text, 3000), "chunk": j.chunk, "pad": j.pad, "origin": "chunking"}
+			if got.panic != "" {
+				run.Report(fmt.Sprintf("C10|panic|%s|chunking", panicClass(got.panic)), "ReadFile panicked under a chunked reader: "+got.panic, c)
+				return
+			}
+			if full.ok != got.ok || (full.ok && textgen.Canon(full.file, textgen.CanonOpt{}) != textgen.Canon(got.file, textgen.CanonOpt{})) {
+				kind := "different-file"
+				if full.ok && !got.ok {
+					kind = "rejected-when-chunked"
+				} else if !full.ok && got.ok {
+					kind = "accepted-when-chunked"
+				}
+				run.Report(fmt.Sprintf("C10|chunking|%s|long=%v", kind, len(j.text) > 4096),
+					fmt.Sprintf("ReadFile's result depends on how the reader delivers the same %d bytes (chunk=%d, %d bytes of leading padding): one read gives ok=%v (%d definitions), chunked gives ok=%v err=%q", len(text), j.chunk, j.pad, full.ok, defs(full.file), got.ok, got.err), c)
+			}
+		})
+	}
 
 	// A3: every valid text × every reader failure offset × 2 delivery styles × 2 chunkings
 	var texts []struct{ text, label string }
@@ -416,4 +492,34 @@ func main() {
 	run.Coverage["rule"] = "state = one input (all lexeme strings ≤ max_lexemes over a 36-lexeme alphabet from 2 start states; all byte strings ≤ max_bytes over a 26-byte alphabet from 11 start states; 34 well-formed definitions × 28 tails) or one (valid text, failure offset, style, chunking) reader fault; oracle: no panic, returns (60 s watchdog), a failing reader yields an error, success implies an appended definition is seen; distinct = distinct outcomes (error / panic class / accepted File)"
 	run.Assume = []string{"the coverage-guided fuzzing clause of the quantifier is a different technique and is replaced by exhaustive small-alphabet strings"}
 	run.Finish()
+}
+
+// chunkReader returns at most chunk bytes per Read.
+type chunkReader struct {
+	data  []byte
+	pos   int
+	chunk int
+}
+
+func (c *chunkReader) Read(p []byte) (int, error) {
+	if c.pos >= len(c.data) {
+		return 0, io.EOF
+	}
+	n := c.chunk
+	if n > len(p) {
+		n = len(p)
+	}
+	if n > len(c.data)-c.pos {
+		n = len(c.data) - c.pos
+	}
+	copy(p, c.data[c.pos:c.pos+n])
+	c.pos += n
+	return n, nil
+}
+
+// bufioSized is an ordinary reader (whole-slice reads), so only the tokenizer's own buffer boundaries matter.
+func bufioSized(text string) io.Reader { return strings.NewReader(text) }
+
+func defs(f bebop.File) int {
+	return len(f.Structs) + len(f.Messages) + len(f.Enums) + len(f.Unions) + len(f.Consts) + len(f.Imports)
 }
